@@ -105,6 +105,8 @@ TraceInit ==
 (***************************************************************************)
 (* Event binding.                                                          *)
 (***************************************************************************)
+InCreate(a) == pc[a] \in {"k_open", "k_tlock", "k_dlock", "k_check", "k_stamp", "k_wmeta", "k_whint", "k_unlock", "k_tunlock", "k_done", "k_failed"}
+
 IsEv(k) == l <= Len(Evs) /\ ev.k = k /\ l' = l + 1 /\ UNCHANGED tid
 A == ev.a
 
@@ -162,6 +164,8 @@ TrFault ==
             [] ev.cls = "marker" /\ ev.op \in {"get_modified_time", "delete_file"} ->
                   (IF ev.f \in loc[A].mseen THEN GMarkUndeletable(A, ev.f) ELSE Stutter)
             [] OTHER -> GSkip(A, ev.f)
+     ELSE IF InCreate(A) THEN KFault(A)
+     ELSE IF ev.when = "after" THEN ev.cls = "hint" /\ ev.op \in {"write_file", "write_file_cas"} /\ AmbiguousAfterFlip(A)
      ELSE IF pc[A] \in {"rollback", "c_cleanup"} /\ ev.when # "async"
      THEN IF ev.cls = "marker" THEN SkipMarker(A, ev.f) ELSE SkipRollbackData(A, ev.f)
      ELSE Fault(A, ev.when)
@@ -217,7 +221,6 @@ TrNow ==
        [] ev.why = "gcc" -> GStamp(A, ev.val)
        [] OTHER -> Stutter
 
-InCreate(a) == pc[a] \in {"k_open", "k_tlock", "k_dlock", "k_check", "k_stamp", "k_wmeta", "k_whint", "k_unlock", "k_tunlock", "k_done"}
 TrTLock   == IsEv("TLock") /\ IF InCreate(A) THEN KTLock(A) ELSE TLock(A)
 TrTUnlock == IsEv("TUnlock") /\ IF InCreate(A) THEN KTUnlock(A) ELSE TUnlock(A)
 TrLockTry == IsEv("LockTry") /\ IF ev.ok THEN (IF InCreate(A) THEN KDLock(A) ELSE DLock(A)) ELSE (lockHolder \notin {"none", A} /\ Stutter)
@@ -242,6 +245,8 @@ TrFlipHint ==
           /\ ev.ok <=> (hint' = [cls |-> "name", name |-> MyMetaName(A)] /\ loc'[A].after \in {"c_finish", "c_cleanup"})
 
 TrBackoff == IsEv("Backoff") /\ Backoff(A)
+TrDiscardMeta == IsEv("DiscardMeta") /\ Name(ev.name) = MyMetaName(A) /\ (IF ev.ok THEN DiscardMeta(A) ELSE DiscardMetaFails(A))
+TrCrash == IsEv("Crash") /\ Crash(ev.who)
 TrHeartbeat == IsEv("Heartbeat") /\ IF ev.ok THEN (IF lease.t = clock THEN lockHolder = ev.who /\ Stutter ELSE Heartbeat(ev.who))
                                                ELSE (lockHolder # ev.who /\ Stutter)
 
@@ -271,6 +276,7 @@ TrRet ==
           /\ ev.res = "ok" <=> loc[A].err = "none"
           /\ ev.res = "ok" => IF WantsData(A) THEN ToSet(ev.files) = loc[A].got     \* rows returned = files the model read
                                                ELSE ev.count = Cardinality(loc[A].rfiles)
+     ELSE IF pc[A] = "k_failed" THEN KReturnErr(A) /\ ev.res = "error"
      ELSE IF InCreate(A) THEN KReturn(A) /\ ev.res = "ok" /\ ev.uuid = ResolvedBody.uuid
      ELSE IF ev.res = "ok" THEN ReturnOk(A)
      ELSE IF ev.res = "false" THEN Stutter      \* delete_snapshot of an absent snapshot: DsResolve already returned
@@ -295,7 +301,7 @@ TraceNext ==
   \/ TrCommitStart \/ TrFinish \/ TrFault \/ TrReadHintEtag
   \/ TrBegin \/ TrResolve \/ TrWriteMarker \/ TrWriteData \/ TrExists \/ TrRead \/ TrWriteMan \/ TrWriteList
   \/ TrNow \/ TrTLock \/ TrTUnlock \/ TrLockTry \/ TrDUnlock \/ TrWriteMeta \/ TrFence \/ TrFlipHint
-  \/ TrDamage \/ TrReadFailed \/ TrBackoff \/ TrHeartbeat \/ TrList \/ TrStat \/ TrDeleteMarker \/ TrDeleteFile \/ TrRet \/ TrTick \/ TrObserve
+  \/ TrDiscardMeta \/ TrCrash \/ TrDamage \/ TrReadFailed \/ TrBackoff \/ TrHeartbeat \/ TrList \/ TrStat \/ TrDeleteMarker \/ TrDeleteFile \/ TrRet \/ TrTick \/ TrObserve
 
 TraceSpec == TraceInit /\ [][TraceNext]_tvars
 
